@@ -179,7 +179,7 @@ def leads_outside(root, comps):
     return not (target == r or target.startswith(r + "/"))
 
 
-def one_request(res, sb, sw_holder, write, comps, method, cond, observe):
+def one_request(res, sb, sw_holder, write, comps, method, cond, observe, repopulate=True):
     key = write
     if key not in sw_holder:
         sw_holder[key] = SiteWorld(lambda sw, w=write: FileServer(sb.root, sw.ctx.log.getChild("fs"), write=w))
@@ -218,7 +218,8 @@ def one_request(res, sb, sw_holder, write, comps, method, cond, observe):
         res.violate(Violation("touched-outside-root", "only objects inside the root", outside[:4], "cli/fileserver.py:request_to_localpath", case,
                               key="%s:%s" % (int(method), "abs" if "abs" in shape else "other")))
     changed = sorted(set(before.items()) ^ set(after.items()))
-    changed_out = [p for p, _ in changed if not sb.inside(p)]
+    # (the root's own directory entry belongs to its parent: making the root disappear is a change outside of it)
+    changed_out = [p for p, _ in changed if not sb.inside(p) or os.path.normpath(p) == os.path.normpath(str(sb.root))]
     if changed_out:
         res.violate(Violation("changed-outside-root", "nothing outside the root changes", changed_out[:4], "cli/fileserver.py", case, key="changed-out"))
     if not write and changed:
@@ -239,7 +240,7 @@ def one_request(res, sb, sw_holder, write, comps, method, cond, observe):
     sw.loop.exc.clear()
     res.signatures.add((shape, int(method), write, cond, observe, code >> 5, bool(changed)))
     res.outcomes.add((code, bool(changed)))
-    if changed:
+    if changed and repopulate:
         sb.populate()
         for k in list(sw_holder):      # the servers hold observation state keyed by path objects: start afresh
             sw_holder.pop(k).dispose()
@@ -283,11 +284,86 @@ def job(arg):
         elif kind == "blocks":
             blocks(res, sb, holder)
             two_roots(res, sb)
+        elif kind == "histories":
+            emptied_tree(res, sb, holder)
+            replaced_between_fetches(res, sb, holder)
     finally:
         for sw in holder.values():
             sw.dispose()
         sb.destroy()
     return res
+
+
+def emptied_tree(res, sb, holder):
+    """Histories that clean the tree out file by file through the server; then every spelling of the root and of the (now empty)
+    directories is asked to be deleted, replaced and fetched: the directory the server was started with stays, whatever is in it."""
+    small = ["", ".", "..", "sub", "a"]
+    spellings = [p for n in range(0, 3) for p in itertools.product(small, repeat=n)]
+    for keep_dirs in (True, False):
+        for comps in spellings:
+            for method in (DELETE, PUT, GET):
+                sb.populate()
+                for k in list(holder):
+                    holder.pop(k).dispose()
+                # the history: every file is deleted through the server
+                for path in (["f.txt"], ["g.bin"], ["sub", "h.txt"]):
+                    one_request(res, sb, holder, True, path, DELETE, "none", False, repopulate=False)
+                leftover = sorted(p.name for p in sb.root.rglob("*") if p.is_file())
+                if leftover:
+                    res.violate(Violation("delete-refused", "files inside the root can be deleted", leftover, "cli/fileserver.py:render_delete",
+                                          {"emptied": True}, key="emptying"))
+                    return
+                if not keep_dirs:
+                    (sb.root / "sub").rmdir()
+                    (sb.root / "a").rmdir()
+                one_request(res, sb, holder, True, list(comps), method, "none", False, repopulate=False)
+                if not sb.root.is_dir():
+                    res.violate(Violation("changed-outside-root", "the served directory itself stays", "it is gone", "cli/fileserver.py:render_delete",
+                                          {"path": list(comps), "method": int(method), "write": True, "cond": "none", "observe": False, "emptied": [keep_dirs]},
+                                          key="root-gone"))
+                    sb.populate()
+    res.sample({"emptied_tree": "DELETE f.txt, g.bin, sub/h.txt; then DELETE/PUT/GET on every spelling"})
+
+
+def replaced_between_fetches(res, sb, holder):
+    """A block-wise fetch that stops part of the way, a replacement of the file through the server (PUT, or DELETE and PUT), another
+    fetch: what is fetched is what the file contains now."""
+    for k in list(holder):
+        holder.pop(k).dispose()
+    sw = holder.setdefault("rw", SiteWorld(lambda sw: FileServer(sb.root, sw.ctx.log.getChild("fs"), write=True)))
+    for n_old, n_new in ((100, 100), (100, 40), (40, 100), (1025, 1025), (17, 16)):
+        for first_blocks in (0, 1, 2):
+            for how in ("put", "delete+put"):
+                for szx2 in (0, 2, 6):
+                    name = "r%d-%d-%d-%s-%d.bin" % (n_old, n_new, first_blocks, how, szx2)
+                    old, new = content(n_old, 5), content(n_new, 77)
+                    (sb.root / name).write_bytes(old)
+                    for num in range(first_blocks):
+                        msg = Message(code=GET, uri_path=[name])
+                        msg.opt.block2 = (num, False, 0)
+                        sw.do(msg, 1)
+                    if how == "delete+put":
+                        sw.do(Message(code=DELETE, uri_path=[name]), 1)
+                    r = sw.do(Message(code=PUT, uri_path=[name], payload=new), 1)
+                    case = {"replaced": [n_old, n_new, first_blocks, how, szx2]}
+                    res.evaluations += 1
+                    if int(r.code) >= 128 or (sb.root / name).read_bytes() != new:
+                        res.violate(Violation("replace-refused", "PUT replaces the file", repr(r), "cli/fileserver.py:render_put", case, key="replace"))
+                        continue
+                    size = 1 << (szx2 + 4)
+                    got = b""
+                    for num in range(max(1, -(-n_new // size))):
+                        msg = Message(code=GET, uri_path=[name])
+                        msg.opt.block2 = (num, False, szx2)
+                        got += bytes(sw.do(msg, 1).payload)
+                    plain = bytes(sw.do(Message(code=GET, uri_path=[name], block2=(0, False, 6)), 1).payload)
+                    if got != new or plain != new[:1024]:
+                        res.violate(Violation("block-fetch", "the file's content as it is now (%d bytes)" % n_new,
+                                              {"len": len(got), "is_old_content": got == old or plain == old[:1024]}, "cli/fileserver.py:render_get_file", case,
+                                              key="stale-after-replace"))
+                    res.signatures.add(("repl", n_old, n_new, first_blocks, how, szx2))
+                    res.outcomes.add(("repl", got == new))
+    res.sample({"replaced_between_fetches": "GET blocks 0..k-1, PUT (or DELETE+PUT), fetch again"})
 
 
 def two_roots(res, sb):
@@ -389,7 +465,7 @@ def run(tier, seed, jobs):
     if tier == "quick":
         p3 = [p for i, p in enumerate(p3) if (i + seed) % 3 == 0]
     work = [("paths", p2[i::24], tier) for i in range(24)] + [("paths3", p3[i::24], tier) for i in range(24)]
-    work += [("abs", None, tier), ("blocks", None, tier)]
+    work += [("abs", None, tier), ("blocks", None, tier), ("histories", None, tier)]
     if tier == "thorough":
         p4 = [p for p in itertools.product(ALPHA[:9], repeat=4)]
         work += [("paths3", p4[i::32], tier) for i in range(32)]
@@ -406,6 +482,10 @@ def replay(case, scenario, seed):
     try:
         if "two_roots" in case:
             two_roots(res, sb)
+        elif "emptied" in case:
+            emptied_tree(res, sb, holder)
+        elif "replaced" in case:
+            replaced_between_fetches(res, sb, holder)
         elif "file_size" in case:
             blocks(res, sb, holder)
         else:
